@@ -656,15 +656,31 @@ def classify(case, impl, failure):
         return "bind-crosses-use-cc"
     return None
 
+def ring_of_state(state):
+    """the pending ring in the end state printed by harness / driver, oldest first"""
+    import re
+    m = re.search(r"pend=([-0-9,]*);pr=(\d+);pw=\d+;ps=(\d+)", state)
+    if not m:
+        return None
+    vals = [int(x) for x in m.group(1).split(",")]
+    pr, ps = int(m.group(2)), int(m.group(3))
+    return [vals[(pr + i) % 32] for i in range(ps)]
+
 def canon(case, line):
-    """The model driver's line ends in #N=<MidiSpec.nocross on the model's records>; the harness
-    line gets #N=<nocross of this file on the implementation's records>: the correspondence run
-    fails when the Coq predicate and the classifier's predicate disagree on a history."""
+    """The model driver's line ends in #N=<MidiSpec.nocross on the model's records>#P=<MidiSpec.pending_of>
+    #R=<that list is what the model's ring holds>; the harness line gets the same three computed by this
+    file (nocross, pending_before, ring_of_state) from the implementation's records and end state: the
+    correspondence run fails when the Coq predicates and the classifier's disagree on a history, or when
+    the pending set the classifier infers from the records is not the one the real ring holds."""
     if "#N=" in line:
         return line
     if line in ("BADCASE", "PIPEFAIL") or line.startswith("NOOUT") or line.startswith("CRASH:"):
         return line
-    return line + "#N=%d" % (1 if nocross(case, line) else 0)
+    P = pending_before(case, line, 1 << 30)
+    out = line + "#N=%d#P=%s" % (1 if nocross(case, line) else 0, ",".join(map(str, P)))
+    if "|" in line:
+        out += "#R=%d" % (1 if ring_of_state(line.split("|", 1)[1]) == P else 0)
+    return out
 
 RULE = ("histories over 2..4 addresses drawn from a pool of int and float ranges (incl. the 0..127 int special case, "
         "non-representable decimal bounds, a degenerate and a tiny range) and 2..6 controllers (channel/NRPN spellings "
